@@ -217,7 +217,7 @@ def run(ctx):
             nb = [int(rng.integers(1, 13 if nctx == 1 else 6)) for _ in range(nctx)]
             streamline = bool(rng.random() < 0.3)
             wq = ["qint8", "qfloat8", "qint4"][int(rng.integers(3))]
-            if gen.int8pack_crash_class(wd, wq, 16, quantized_activations=True):
+            if gen.int8pack_crash_class(wd, wq, 16, quantized_activations=False):  # streamlining may disable activations
                 wq = "qfloat8"
             desc = dict(history=i, model=kind, dtype=str(wd), activations=aq, weights=wq, momenta=moms, batches=nb,
                         streamline=streamline)
